@@ -3,11 +3,15 @@ package main
 import (
 	"fmt"
 	"go/token"
+	"go/types"
+	"strings"
 )
 
 func tokenPos(i int) token.Pos { return token.Pos(i) }
 
-// encodeLemma: a closed formula over spec functions: hyps ==> concl, for all params.
+// encodeLemma: a ghost client program over contracts and spec functions:
+//   params ...; hyp P (assumed); call [x :=] f(args) (callee contract applied: requires become
+//   obligations, modifies havocked, ensures assumed); concl Q (obligation).
 func encodeLemma(prog *Program, l *Lemma) (obls []*Obligation, err error) {
 	c := &FuncContract{Key: "lemma:" + l.Name, PkgPath: l.PkgPath, Props: l.Props, Arith: l.Arith, Loops: map[int]*LoopSpec{}, Opaque: map[string]string{}}
 	e := newFnEnc(prog, nil, c)
@@ -28,25 +32,96 @@ func encodeLemma(prog *Program, l *Lemma) (obls []*Obligation, err error) {
 			panic(r)
 		}
 	}()
-	env := &specEnv{e: e, vars: map[string]Val{}, st: e.st0, old: e.st0, pkg: e.pkg}
+	vars := map[string]Val{}
+	mkEnv := func() *specEnv { return &specEnv{e: e, vars: vars, st: e.st, old: e.st0, pkg: e.pkg} }
+	env := mkEnv()
+	allocArr := e.heapArr("$alloc", "(Array Int Bool)")
 	for _, p := range l.Params {
 		t := env.resolveType(p.Typ)
 		v := e.freshParam("p_"+p.Name, t)
-		env.vars[p.Name] = v
+		vars[p.Name] = v
+		e.params[p.Name] = v
 		e.assert(e.typeFacts(v))
+		e.assert(e.allocatedFacts(v, allocArr))
 	}
-	for _, h := range l.Hyps {
-		e.assert(e.evalBool(h.E, env, h))
-	}
-	e.flushFacts()
-	for _, cl := range l.Concl {
-		t := e.evalBool(cl.E, env, cl)
-		e.flushFacts()
-		lbl := cl.Label
-		if lbl == "" {
-			lbl = shortLabel(cl.Src)
+	for _, st := range l.Steps {
+		env = mkEnv()
+		switch st.Kind {
+		case "hyp":
+			e.assert(e.evalBool(st.E, env, st))
+			e.flushFacts()
+		case "concl":
+			t := e.evalBool(st.E, env, st)
+			e.flushFacts()
+			lbl := st.Label
+			if lbl == "" {
+				lbl = shortLabel(st.Src)
+			}
+			e.oblige("lemma", lbl, t, token.NoPos)
+		case "call":
+			call, ok := st.E.(*ECall)
+			if !ok {
+				return nil, fmt.Errorf("%s:%d: call step must be a call expression", st.File, st.Line)
+			}
+			var args []Val
+			var argTs []types.Type
+			key := call.Fun
+			if i := strings.LastIndex(call.Fun, "."); i > 0 {
+				// method call x.m(...)
+				rx, perr := ParseExpr(call.Fun[:i])
+				if perr != nil {
+					return nil, perr
+				}
+				rv := env.eval(rx)
+				args = append(args, rv)
+				argTs = append(argTs, rv.T)
+				tn := ""
+				ptr := ""
+				t := rv.T
+				if p, isP := t.(*types.Pointer); isP {
+					t = p.Elem()
+					ptr = "*"
+				}
+				if n, isN := t.(*types.Named); isN {
+					tn = n.Obj().Name()
+				}
+				key = "(" + ptr + tn + ")." + call.Fun[i+1:]
+			}
+			fn, ferr := prog.findFunc(l.PkgPath, key)
+			if ferr != nil {
+				return nil, ferr
+			}
+			cc := prog.contract(l.PkgPath, key)
+			if cc == nil {
+				return nil, fmt.Errorf("%s:%d: %s has no contract", st.File, st.Line, key)
+			}
+			sig := fn.Signature
+			for i, a := range call.Args {
+				v := env.eval(a)
+				pt := sig.Params().At(i).Type()
+				v = env.typed(v, pt)
+				if v.T == nil && len(v.L) == 1 && v.L[0] == "0" {
+					v = e.zeroVal(pt)
+				}
+				args = append(args, v)
+				argTs = append(argTs, pt)
+			}
+			var resT types.Type = sig.Results()
+			if sig.Results().Len() == 1 {
+				resT = sig.Results().At(0).Type()
+			}
+			res := e.applyContract(cc, l.PkgPath[strings.LastIndex(l.PkgPath, "/")+1:]+"."+key, e.pkg, sigParamNames(sig), args, argTs, sig, nil, resT, token.NoPos)
+			if st.Label != "" && res != nil {
+				if sig.Results().Len() == 1 {
+					vars[st.Label] = *res
+				} else {
+					for i := 0; i < sig.Results().Len(); i++ {
+						lo, hi := e.sorter.tupleRange(sig.Results(), i)
+						vars[fmt.Sprintf("%s%d", st.Label, i)] = Val{T: sig.Results().At(i).Type(), L: res.L[lo:hi]}
+					}
+				}
+			}
 		}
-		e.oblige("lemma", lbl, t, token.NoPos)
 	}
 	return e.obls, nil
 }
